@@ -1,12 +1,11 @@
 CONSTANTS
-  TermsOf <- AbsTerms
-  ShortOf <- AbsShort
+  LabelTerms <- AbsTerms
   Variant = "ok"
   Labels <- L5
   MaxNodes = 4
   MaxDepth = 4
   Alphabet <- AlphaCore
   MaxToks = 1
-  Gen <- GenQ
+  Big = FALSE
 SPECIFICATION SpecTrees
-INVARIANT EmitTree
+INVARIANT EmitFull
